@@ -12,9 +12,14 @@ CONSTANTS
   LongPre <- PreLong
   LongItems <- ItemsLong
   LongMax = 70
+  FocusNames <- NoNames
+  FocusPre <- PreFocus
+  FocusItems <- ItemsFocus
+  FocusMax = 4
   FixO1 = TRUE
   FixRetry = TRUE
+  FixRetryList = FALSE
   MaxTried = 64
-INVARIANTS Q1 Q1b Q1r Q2 Q3 Q4 Q5 PickIsDoc ViewsAgree
+INVARIANTS Q1Guard Q1b Q1r Q2 Q3 Q4 Q5 PickIsDoc ViewsAgree
 VIEW MCView
 CHECK_DEADLOCK FALSE
